@@ -33,12 +33,13 @@ ASSUMPTIONS = ["entries of S are compared with -64*eps*cond(M)*max|S|; configura
                "solve of a generic field is compared with it in every configuration"]
 DTS = [10.0 ** k for k in (-4, -3, -2, -1, 0, 1, 2, 3, 4)]
 SETUPS = ["dirichlet", "noflux", "periodic", "mixed"]
+UMAGS = [1.0, 2.0 ** 12, 2.0 ** -40]        # cell Peclet numbers from ~1 to ~1e4 and creeping flow
 DPATS = ["one", "zero_face", "checker_2e6", "checker_1e6", "axis_contrast"]
 SHAPES = {1: [(3,), (1,)], 2: [(2, 3)], 3: [(2, 2, 2)]}
 
 
 def bounds(tier):
-    return {"dt": [str(x) for x in DTS], "setups": SETUPS, "D_patterns": DPATS, "sink": [0, "generic>0"],
+    return {"velocity_magnitudes": ["4", "4*2^12", "4*2^-40"], "dt": [str(x) for x in DTS], "setups": SETUPS, "D_patterns": DPATS, "sink": [0, "generic>0"],
             "deviation_bound": 2 if tier == "quick" else 3, "steps": "1 (operator) + 2-step product"}
 
 
@@ -168,13 +169,13 @@ def run_case(case):
         else:
             vel.append((label + ":+", [4.0 * a for a in ua]))
             vel.append((label + ":-", [-4.0 * a for a in ua]))
-    dims_opts = [DPATS, [0, 1], DTS, list(range(len(vel)))]
-    default = (0, 0, DTS.index(1.0), 0)
+    dims_opts = [DPATS, [0, 1], DTS, list(range(len(vel))), UMAGS]
+    default = (0, 0, DTS.index(1.0), 0, 0)
     bound = 2 if tier == "quick" else 3
     # all vectors within the deviation bound of the default
     vecs = {default}
     for k in range(1, bound + 1):
-        for pos in itertools.combinations(range(4), k):
+        for pos in itertools.combinations(range(5), k):
             ranges = [range(len(dims_opts[p])) for p in pos]
             for vals in itertools.product(*ranges):
                 v = list(default)
@@ -190,9 +191,14 @@ def run_case(case):
     beta_f = 0.5 + U.generic_array(g.dims, tag=603) / 16.0
     rows_in = np.flatnonzero(inner)
     cgen = U.generic_array((max(nc, 1),), tag=605)[:nc]
-    for (di, bi, ti, vi) in sorted(vecs):
+    for (di, bi, ti, vi, mi) in sorted(vecs):
+        if mi and not vi:
+            continue                    # a magnitude without a velocity is the default again
         dpat, dt = DPATS[di], DTS[ti]
         label, ua = vel[vi]
+        if mi:
+            label = "%s x %g" % (label, UMAGS[mi])
+            ua = [a * UMAGS[mi] for a in ua]
         u = U.face_from_arrays(g.mesh, ua)
         # precondition: discretely divergence-free
         div = np.asarray(pf.divergenceTerm(u), dtype=float)[rows_in]
